@@ -54,7 +54,7 @@ func applyReject(t *Tape, tpl int, c *CmdDecl, toks []string, cause rejectCause)
 	}
 	switch cause {
 	case rcMissingPositional:
-		if !hasTpl(tpl, 2, 3, 4, 7) {
+		if !hasTpl(tpl, 2, 3, 4, 7, 10) {
 			return nil, false
 		}
 		kept := []string{}
@@ -69,7 +69,7 @@ func applyReject(t *Tape, tpl int, c *CmdDecl, toks []string, cause rejectCause)
 		}
 		return kept, true
 	case rcSurplusPositional:
-		if !hasTpl(tpl, 0, 1, 2, 3, 5, 6, 7) {
+		if !hasTpl(tpl, 0, 1, 2, 3, 5, 6, 7, 9) {
 			return nil, false
 		}
 		out = append(out, []string{"y0", "y1", "y2", "", " "}[t.Draw(5)])
@@ -81,11 +81,15 @@ func applyReject(t *Tape, tpl int, c *CmdDecl, toks []string, cause rejectCause)
 		if tpl != 3 {
 			return nil, false
 		}
-		bad := []string{"abc", "1.5", "0x10", "9223372036854775808", "1_0", "٣"}[t.Draw(6)]
-		insert([][]string{{"-n=" + bad}, {"--num=" + bad}, {"-n", bad}, {"--num", bad}}[t.Draw(4)]...)
+		bad := []string{"abc", "1.5", "0x10", "9223372036854775808", "1_0", "٣", "+", "-"}[t.Draw(8)]
+		form := t.Draw(4)
+		if bad == "-" && form >= 2 {
+			form -= 2 // a value starting with a dash is only a value in an attached spelling
+		}
+		insert([][]string{{"-n=" + bad}, {"--num=" + bad}, {"-n", bad}, {"--num", bad}}[form]...)
 		return out, true
 	case rcBadBool:
-		if !hasTpl(tpl, 1, 5) {
+		if !hasTpl(tpl, 1, 5, 9) {
 			return nil, false
 		}
 		bad := []string{"maybe", "yes", "2", "tru"}[t.Draw(4)]
@@ -346,6 +350,11 @@ func c07Invocation(t *Tape, tc *TreeCase, allowSetError bool) *c07Case {
 	}
 	c.Stream = drawStream(t)
 	c.Ambient = drawAmbient(t)
+	for _, tp := range tc.Tpl {
+		if tp == 9 && t.Draw(2) == 0 {
+			c.Env.Set(1, []string{"true", "1", "false"}[t.Draw(3)]) // -v of that level also has an environment value
+		}
+	}
 	c.Argv = tc.Argv()
 	return c
 }
@@ -584,7 +593,7 @@ func c14Invocation(t *Tape, tc *TreeCase, kind string) *c07Case {
 		start := t.Draw(len(tc.Path))
 		for k := 0; k < len(tc.Path); k++ {
 			l := (start + k) % len(tc.Path)
-			if tc.Tpl[l] == 4 || tc.Tpl[l] == 2 || tc.Tpl[l] == 7 {
+			if tc.Tpl[l] == 4 || tc.Tpl[l] == 2 || tc.Tpl[l] == 7 || tc.Tpl[l] == 10 {
 				lvl = l
 				break
 			}
@@ -594,7 +603,9 @@ func c14Invocation(t *Tape, tc *TreeCase, kind string) *c07Case {
 			break
 		}
 		c.Level = lvl
-		if tc.Tpl[lvl] == 2 || tc.Tpl[lvl] == 7 {
+		if tc.Tpl[lvl] == 10 {
+			tc.Tokens[lvl] = [][]string{{"--", c.HelpTok}, {"--", "x1", c.HelpTok}, {"--", c.HelpTok, "x2"}}[t.Draw(3)]
+		} else if tc.Tpl[lvl] == 2 || tc.Tpl[lvl] == 7 {
 			tc.Tokens[lvl] = []string{"--", c.HelpTok}
 		} else {
 			toks := append([]string{"--"}, tc.Tokens[lvl]...)
@@ -604,6 +615,9 @@ func c14Invocation(t *Tape, tc *TreeCase, kind string) *c07Case {
 	case "version":
 		names := []string{"V version", "V W version", "version ver", "W"}[t.Draw(4)]
 		tc.App.Version = []string{names, "v" + fmt.Sprint(1+t.Draw(9)) + ".2.3-sim"}
+		if t.Draw(6) == 0 {
+			tc.App.Version[1] = "" // a development build whose version variable was left unset
+		}
 		c.VersionText = tc.App.Version[1]
 		c.Level = 0
 		// any of the declared names, not only the first short and the first long one
@@ -622,6 +636,11 @@ func c14Invocation(t *Tape, tc *TreeCase, kind string) *c07Case {
 	}
 	c.Stream = drawStream(t)
 	c.Ambient = drawAmbient(t)
+	for _, tp := range tc.Tpl {
+		if tp == 9 && t.Draw(2) == 0 {
+			c.Env.Set(1, []string{"true", "1", "false"}[t.Draw(3)]) // -v of that level also has an environment value
+		}
+	}
 	c.Argv = tc.Argv()
 	return c
 }
@@ -683,7 +702,11 @@ func c14Verdict(c *c07Case, runs [3]policyRun, st *Stats) *Violation {
 			}
 			if c.Kind == "help-as-data" {
 				key := c.Tree.Path[c.Level].Tag + "/X"
-				if snap, ok := r.snap[key]; !ok || !strings.Contains(snap.Val, `"`+c.HelpTok+`"`) {
+				snap, ok := r.snap[key]
+				if y, okY := r.snap[c.Tree.Path[c.Level].Tag+"/Y"]; okY && strings.Contains(y.Val, `"`+c.HelpTok+`"`) {
+					snap, ok = y, true
+				}
+				if !ok || !strings.Contains(snap.Val, `"`+c.HelpTok+`"`) {
 					return &Violation{Clause: "help-token-as-data", Detail: pn + ": the help token after `--` must be bound verbatim to the positional argument", Expected: c.HelpTok, Observed: map[string]interface{}{"X": snap.Val, "runs": obs}}
 				}
 			}
